@@ -88,6 +88,9 @@ def client_entry_points(v, pid, tier, seed, prefixes):
         for viol in (res.get("violations") or []):
             if viol["signature"].startswith(tuple(prefixes)):
                 v.violation(viol["signature"], viol["what"], viol["replay"])
+            elif pid == "C13" and "honest-answer-rejected" in viol["signature"]:
+                # a genuine answer that the server-side object verifies but the client, after JSON and HTTP, does not
+                v.violation("C13:genuine-answer-lost-on-the-wire:" + viol["signature"].split(":")[-1], viol["what"], viol["replay"])
     finally:
         s.cleanup()
 
